@@ -91,7 +91,8 @@ def normpath(urlpath, drop_consecutive_slashes=True):
 
     for segment in segments:
         if segment in ("../", ".."):
-            if resolved[1:]:
+            # NOTE: everything can be popped but the root of an absolute path
+            if resolved[1:] or (resolved and resolved[0] != "/"):
                 resolved.pop()
         elif segment not in ("./", "."):
             resolved.append(segment)
